@@ -516,8 +516,11 @@ void getOffsetAndCount(const MultiTag &tag, const DataArray &array, const vector
                         throw nix::OutOfBounds("util::offsetAndCount:An invalid range was encountered!");
                     }
                     data_offset[dim_index] = *ofst;
+                } else {
+                    // no element of this dimension lies inside a region with a non-zero extent
+                    throw nix::OutOfBounds("util::offsetAndCount:An invalid range was encountered!");
                 }
-            }   
+            }
         }
         offsets.push_back(data_offset);
         counts.push_back(data_count);
